@@ -61,16 +61,21 @@ func expectKeys(p *proggen.Prog, e *proggen.Expect) (must, may []string, oneOf [
 	// sites whose line is only known through the tag: scan rendered lines
 	for _, pk := range p.Pkgs {
 		for _, f := range pk.Files {
-			for i := range f.Lines {
-				if id := proggen.TagAt(f.Lines, i+1); id != 0 {
-					loc[id] = fmt.Sprintf("%s/%s:%d", pk.Dir, f.Name, i+1)
-				}
+			for id, w := range p.TagLines() {
+				loc[id] = fmt.Sprintf("%s:%d", w.File, w.Line)
 			}
+			_ = f
 		}
 	}
 	for id, cs := range e.Must {
 		for c := range cs {
-			must = append(must, loc[id]+":"+c)
+			n := e.Counts[id][c]
+			if n < 1 {
+				n = 1
+			}
+			for i := 0; i < n; i++ {
+				must = append(must, loc[id]+":"+c) // repeated = expected that many times
+			}
 		}
 	}
 	for id, cs := range e.May {
@@ -98,11 +103,11 @@ func runProgCase(c progCase) string {
 	if len(res.Panics) > 0 {
 		return "analyzer panic: " + res.Panics[0]
 	}
-	got := engine.KeySet(res.Diags, c.Prefixes...)
-	must := map[string]bool{}
+	got := engine.KeyCounts(res.Diags, c.Prefixes...)
+	must := map[string]int{}
 	may := map[string]bool{}
 	for _, k := range c.Must {
-		must[k] = true
+		must[k]++
 	}
 	for _, k := range c.May {
 		may[k] = true
@@ -112,21 +117,22 @@ func runProgCase(c progCase) string {
 		n := 0
 		for _, k := range grp {
 			may[k] = true
-			if got[k] {
-				n++
-			}
+			n += got[k]
 		}
 		if n != 1 {
 			probs = append(probs, fmt.Sprintf("once-per-file group %v reported %d times", grp, n))
 		}
 	}
-	for k := range must {
-		if !got[k] {
+	for k, want := range must {
+		switch n := got[k]; {
+		case n == 0:
 			probs = append(probs, "missing "+k)
+		case n != want:
+			probs = append(probs, fmt.Sprintf("%s reported %d times instead of %d", k, n, want))
 		}
 	}
 	for k := range got {
-		if !must[k] && !may[k] {
+		if must[k] == 0 && !may[k] {
 			probs = append(probs, "unexpected "+k)
 		}
 	}
